@@ -36,6 +36,12 @@ def load_contracts():
                 if getattr(c, "defined_in", None) == modname:
                     for fk, fv in flags.items():
                         setattr(c, fk, fv)
+        for pid, keys in getattr(tuning, "ALSO_SERVES", {}).items():
+            for k in keys:
+                targets = [c for c in REGISTRY.values() if k.startswith("module:") and getattr(c, "defined_in", None) == k[7:]] if k.startswith("module:") else ([REGISTRY[k]] if k in REGISTRY else [])
+                for c in targets:
+                    if not c.assumed and pid not in props_of(c):
+                        c.property = tuple(props_of(c)) + (pid,)
         for k in getattr(tuning, "THOROUGH_ONLY", ()):
             if k in REGISTRY:
                 REGISTRY[k].thorough_only = True
